@@ -94,10 +94,12 @@ def remove (p : Plane) (o : PObj) : Plane × Bool :=
   if o.id ∈ p.objs then ({ p' with objs := p.objs.erase o.id }, true)
   else (p', false)
 
-/-- The overlap test at the end of `Plane.find` (negated `continue` condition). -/
+/-- The overlap test at the end of `Plane.find` (negated `continue` condition).  Kept in this unfolded form
+because the layout lemmas of C09 unfold it; tied to the regenerated condition `plane_find_skip` by
+`Lemmas/Plane.lean: overlaps_eq_not_skip` (a `rfl` that an edit of the Python condition breaks). -/
 def overlaps (o : PObj) (q : Rect) : Bool :=
-  -- the regenerated `continue` condition of `Plane.find`
-  !(plane_find_skip o.x0 o.y0 o.x1 o.y1 q)
+  let (x0, y0, x1, y1) := q
+  !(decide (o.x1 ≤ x0) || decide (x1 ≤ o.x0) || decide (o.y1 ≤ y0) || decide (y1 ≤ o.y0))
 
 /-- First-occurrence de-duplication (the `done` set of `find`). -/
 def dedup : List PObj → List PObj
